@@ -55,3 +55,34 @@ def runner(file, qualname, first_prefix, last_prefix=None):
 
     run.text = text
     return run
+
+
+def async_runner(file, qualname, first_prefix, last_prefix=None):
+    """like runner(), for statements which contain `await`: they are wrapped, unmodified, in `async def extracted(**locals)`
+    whose parameters are the names the caller passes; returns an async callable(**locals)"""
+    stmts = statements(file, qualname, first_prefix, last_prefix)
+    mod = importlib.import_module('exabgp.' + file[:-3].replace('/', '.'))
+    text = '\n'.join(ast.unparse(s) for s in stmts)
+
+    def build(names):
+        args = ast.arguments(posonlyargs=[], args=[ast.arg(arg=n) for n in names], kwonlyargs=[], kw_defaults=[], defaults=[])
+        fn = ast.AsyncFunctionDef(name='extracted', args=args, body=list(stmts), decorator_list=[], returns=None, type_comment=None)
+        try:
+            fn.type_params = []
+        except Exception:  # noqa
+            pass
+        code = compile(ast.fix_missing_locations(ast.Module(body=[fn], type_ignores=[])), f'<extracted {qualname}>', 'exec')
+        ns = {}
+        exec(code, mod.__dict__, ns)
+        return ns['extracted']
+
+    cache = {}
+
+    async def run(**locs):
+        names = tuple(sorted(locs))
+        if names not in cache:
+            cache[names] = build(names)
+        return await cache[names](**locs)
+
+    run.text = text
+    return run
